@@ -841,6 +841,13 @@ def r_slack(db, rep):
                  {"slack": canon(slack), "witness_len": worst[1], "witness_lcp": worst[2], "extent": worst[3]})
 
 
+def _and_atoms(c):
+    c = strip(c)
+    if c["k"] == "BinaryOperator" and c["op"] == "&&":
+        return _and_atoms(c["lhs"]) + _and_atoms(c["rhs"])
+    return [c]
+
+
 @rule("R-VBYTE", 4, "variable-byte codec: encoder and decoder (VByte::encode/decode and the encodeVB2/decodeVB2 copies) agree on the group "
                     "width, the payload mask and the terminator bit: mask = 2^shift - 1, flag = 2^shift, threshold = mask")
 def r_vbyte(db, rep):
@@ -851,13 +858,17 @@ def r_vbyte(db, rep):
         for role, f in (("enc", enc), ("dec", dec)):
             rep.visit(f)
             shifts, masks, flags, thresh = set(), set(), set(), set()
+            # locals used as a shift amount
+            shiftvars = {access_path(f, n["rhs"]) for n in f.live_nodes()
+                         if n["k"] in ("BinaryOperator", "CompoundAssignOperator") and n["op"] in ("<<", ">>", "<<=", ">>=")
+                         and const_value(n["rhs"]) is None and access_path(f, n["rhs"]) is not None}
             for n in f.live_nodes():
                 if n["k"] in ("BinaryOperator", "CompoundAssignOperator"):
                     op = n["op"]
                     cv = const_value(n["rhs"])
                     if op in (">>=", "<<=") and cv is not None:
                         shifts.add(cv)
-                    if op == "+=" and cv is not None and access_path(f, n["lhs"]) is not None and "shift" in str(strip(n["lhs"]).get("n", "")):
+                    if op == "+=" and cv is not None and access_path(f, n["lhs"]) in shiftvars:
                         shifts.add(cv)
                     if op == "&" and cv is not None:
                         (flags if cv & (cv - 1) == 0 else masks).add(cv)
@@ -883,6 +894,41 @@ def r_vbyte(db, rep):
                 problems.append("continuation threshold is %s, not 2^%d-1" % (sorted(et), w))
         for i, pr in enumerate(problems):
             rep.viol("%s<->%s#%d" % (en, dn, i), enc.loc, "%s / %s: %s: some values do not decode to what was encoded" % (en, dn, pr), enc.qn)
+        # the decoder's continuation loop ends on the terminator bit; any additional bound must still admit the
+        # ceil(32/w)-1 continuation groups the encoder can emit for a 32-bit value
+        if len(ds) == 1:
+            w = next(iter(ds))
+            need = -(-32 // w) - 1
+            for lp in dec.live_nodes():
+                if lp["k"] not in ("WhileStmt", "ForStmt", "DoStmt") or lp.get("cond") is None:
+                    continue
+                atoms = _and_atoms(lp["cond"])
+                if not any(any(x["k"] == "BinaryOperator" and x["op"] == "&" and const_value(x["rhs"]) == (1 << w) for x in walk(a)) for a in atoms):
+                    continue
+                for a in atoms:
+                    a = strip(a)
+                    if any(x["k"] == "BinaryOperator" and x["op"] == "&" and const_value(x["rhs"]) == (1 << w) for x in walk(a)):
+                        continue
+                    rep.ob()
+                    ok = None
+                    if a["k"] == "BinaryOperator" and a["op"] in ("<", "<=") and const_value(a["rhs"]) is not None:
+                        v = access_path(dec, a["lhs"])
+                        step = None
+                        for lv, wr in written_lvalues(dec):
+                            if access_path(dec, lv) == v and any(y is wr for y in walk(lp["body"])):
+                                if wr["k"] == "UnaryOperator" and wr["op"] == "++":
+                                    step = 1
+                                elif wr.get("op") == "+=" and const_value(wr.get("rhs")) is not None:
+                                    step = const_value(wr["rhs"])
+                        if step:
+                            K = const_value(a["rhs"]) + (1 if a["op"] == "<=" else 0)
+                            ok = -(-K // step) >= need
+                    if ok is None:
+                        rep.notes.append("%s: extra loop condition at %s not understood (undecided)" % (dn, dec.nloc(lp)))
+                    elif not ok:
+                        rep.viol("%s#loop-bound" % dn, dec.nloc(lp),
+                                 "%s stops after fewer than %d continuation groups although the encoder emits up to %d for a 32-bit value: "
+                                 "large values are truncated and the byte count differs from the encoder's" % (dn, need, need), dec.qn)
 
 
 # ---------------------------------------------------------------------------------------------------
@@ -981,45 +1027,6 @@ def r_setfield(db, rep):
             rep.viol("LogSequence::set_field#store-%s" % canon(SeqBuilder(db, f, "c", nosubst=True).sym(s["idx"])), f.nloc(w),
                      "LogSequence::set_field writes data[..] without first clearing the field's bits ((old & mask) | new): overwriting a position "
                      "leaves stale bits of the previous value", f.qn)
-
-
-def shape(f, n, names=None):
-    """Structural signature of a function body: node kinds, operators, constants; variables numbered by first appearance."""
-    names = names if names is not None else {}
-    out = []
-    for x in walk(n):
-        k = x["k"]
-        if k in TRANSPARENT or k in EXPLICIT_CASTS:
-            continue
-        if k == "DeclRefExpr":
-            key = (x.get("dk"), x.get("d", x.get("n")))
-            out.append("v%d" % names.setdefault(key, len(names)))
-        elif k in ("BinaryOperator", "CompoundAssignOperator", "UnaryOperator"):
-            out.append(k[0] + x["op"])
-        elif k in ("IntegerLiteral", "CharacterLiteral"):
-            out.append(str(x.get("v")))
-        elif k == "DeclStmt":
-            out.append("D%d" % len(x["decls"]))
-        else:
-            out.append(k)
-    return out
-
-
-@rule("R-TWINS", 2, "the two copies of the variable-byte codec (VByte::encode/decode and encodeVB2/decodeVB2 in Utils.h) are structurally "
-                    "identical: a change made to one copy only (an extra loop bound, a different shift) is a divergence")
-def r_twins(db, rep):
-    for a, b in (("VByte::encode", "encodeVB2"), ("VByte::decode", "decodeVB2")):
-        fa, fb = db.fn(a), db.fn(b)
-        rep.visit(fa)
-        rep.visit(fb)
-        sa, sb_ = shape(fa, fa.body), shape(fb, fb.body)
-        rep.inst(fa.loc, "%s <-> %s (%s): %d / %d shape tokens" % (a, b, fb.loc, len(sa), len(sb_)))
-        rep.ob()
-        if sa != sb_:
-            i = next((i for i, (x, y) in enumerate(zip(sa, sb_)) if x != y), min(len(sa), len(sb_)))
-            rep.viol("%s<->%s#diverge" % (a, b), fa.loc,
-                     "%s and %s no longer have the same structure (first difference at token %d: %s vs %s): values encoded by one copy are not "
-                     "decoded alike by the other, or one copy lost a fix" % (a, b, i, sa[i:i + 4], sb_[i:i + 4]), fa.qn)
 
 
 @rule("R-SCANEXIT", 10, "sibling agreement of the five front-coding kinds: every in-bucket scan (locate, searchPrefix) leaves its loop as "
